@@ -37,12 +37,21 @@ def gen(rng, tier):
         if TG.has_inline_map(ty):
             continue
         valid = TG.config_for(rng, ty, 3, None, mention=1.0)
-        pts = TG.fault_points(ty, valid)
+        pts = TG.fault_points(ty, valid, extra=True)
         if not pts:
             continue
         path, kind, repl = rng.pick(pts)
         cfg = TG.replace_at(valid, path, repl)
         p = ".".join(path)
+        if kind.startswith("null-struct:"):
+            p += "." + kind.split(":", 1)[1]           # the failing field below the null setting
+            kind = "null-struct"
+        elif kind.startswith("absent-struct:"):
+            if not struct_only_path(ty, path):
+                continue
+            cfg = drop_key(valid, path)
+            p += "." + kind.split(":", 1)[1]
+            kind = "absent-struct"
         c = {"k": "unpack", "ty": ty, "old": None, "from": cfg, "validFrom": valid, "copts": [], "uopts": [], "faultPath": p, "strictErr": False,
              "_tag": "fault/" + kind, "_nt": p.count(".") >= 1,
              "_sig": "%s|%d|%s" % (kind, p.count("."), TG.type_sig(ty, 1))}
@@ -66,6 +75,18 @@ def gen(rng, tier):
                     c["from"] = TG.replace_at(cfg, pth, A(L[:k])); c["merges"] = [{"b": nestp(A(L)), "opts": []}]
                 c["_tag"] += "+grown"
                 c["_sig"] += "|grown-" + how
+        elif rng.chance(0.2):
+            # one list of an object below the root arrives by a Merge through a handle on that object (Child): its elements
+            # belong to the place the handle stands for, and so do the paths of their faults
+            lists = [(pth, L) for pth, L in list_positions(cfg) if len(pth) >= 2]
+            if lists:
+                pth, L = rng.pick(lists)
+                c["from"] = TG.replace_at(cfg, pth, A([]))
+                c["from"] = drop_key(c["from"], pth)
+                c["merges"] = [{"at": ".".join(pth[:-1]), "b": M([(pth[-1], A(L))]), "opts": []}]
+                c["copts"] = [opt("PathSep", ".")]
+                c["_tag"] += "+via-child"
+                c["_sig"] += "|via-child"
         elif rng.chance(0.35):
             # the same configuration with some names spelled with dots (PathSep): the objects in between are created by the
             # path code, not by the normalizer - the path of the faulty setting and its source stay the same
@@ -83,7 +104,8 @@ def gen(rng, tier):
             c["copts"] = c["copts"] + [{"o": "MetaData", "v": src}]
             for m in c.get("merges", []):
                 m["opts"] = m["opts"] + [{"o": "MetaData", "v": src}]
-            c["source"] = src
+            if kind != "absent-struct":        # nothing was loaded for a setting that is not there: no source to name
+                c["source"] = src
             c["_sig"] += "|src"
         made += 1
         yield c
@@ -171,9 +193,32 @@ def gen_unpackers(rng, n):
             c["copts"] = c["copts"] + [{"o": "MetaData", "v": src}]
             for m in c["merges"]:
                 m["opts"] = m["opts"] + [{"o": "MetaData", "v": src}]
-            c["source"] = src
+            if kind != "absent-struct":        # nothing was loaded for a setting that is not there: no source to name
+                c["source"] = src
             c["_sig"] += "|src"
         yield c
+
+
+def struct_only_path(ty, path):
+    """path runs through (non-inline) struct fields only"""
+    cur = ty
+    for seg in path:
+        if cur["t"] != "struct":
+            return False
+        nxt = [f for f in cur["f"] if TG.field_key(f) == seg and "inline" not in TG.tag_opts(f) and "ignore" not in TG.tag_opts(f)]
+        if not nxt:
+            return False
+        cur = nxt[0]["ty"]
+    return cur["t"] == "struct"
+
+
+def drop_key(cfg, path):
+    """the configuration without the setting at path (through dictionaries)"""
+    if not path or not (isinstance(cfg, dict) and "m" in cfg):
+        return cfg
+    if len(path) == 1:
+        return M([(k, v) for k, v in cfg["m"] if k != path[0]])
+    return M([(k, drop_key(v, path[1:]) if k == path[0] else v) for k, v in cfg["m"]])
 
 
 def list_positions(cfg, path=()):
